@@ -656,7 +656,8 @@ class Ev:
         """structured aggregate constant (array / tuple / struct / enum value) from the fact extractor"""
         fields = [self.const(f, fr) for f in a['fields']]
         if a['kind'] == 'array':
-            if fields and all(f[0] == 'int' and 0 <= f[1] < 256 for f in fields) and tys.parse(ty or '?')[1:2] == (('path', 'u8', ()),):
+            t = tys.strip_refs(tys.parse(ty or '?'))
+            if all(f[0] == 'int' and 0 <= f[1] < 256 for f in fields) and t[0] == 'array' and t[1] == ('path', 'u8', ()):
                 return ('bytes', bytes(f[1] for f in fields))
             return ('arr', tuple(fields))
         if a['kind'] == 'tuple':
